@@ -1,6 +1,7 @@
 package rpc
 
 import (
+	"context"
 	"errors"
 	"io"
 	"time"
@@ -366,4 +367,197 @@ func zzH_TRcc() {
 		vAssert(z.live("a") == 0, "close-closes-every-connection")
 		vReach("end")
 	})
+}
+
+// zzH_TRaddr: two addresses are used, both connections go idle past KeepAlive and are retired by a
+// tick, then both addresses are called again: every request must be written on a connection dialed
+// to the address the caller named.
+func zzH_TRaddr() {
+	z := &zzWorld{up: map[string]bool{"a": true, "b": true}, dials: map[string]int{}}
+	t := zzNewTransport(z, 1+vChoose("max", 2), 1)
+	vSetTimerBudget(vParam("tr.ticks", 2))
+	arg := []byte{0x31}
+	call := func(a, other string) {
+		wa, wo := z.writes(a), z.writes(other)
+		var r []byte
+		err := t.Call(a, "S.Echo", &arg, &r)
+		vAssert(err == nil, "reply-ok")
+		vAssert(z.writes(other) == wo && z.writes(a) == wa+1, "sent-only-to-requested-address")
+	}
+	call("a", "b")
+	call("b", "a")
+	vQuiesce()
+	if vChoose("order", 2) == 0 {
+		call("a", "b")
+		call("b", "a")
+	} else {
+		call("b", "a")
+		call("a", "b")
+	}
+	t.Close()
+	vReach("end")
+}
+
+// zzH_TRvia: recovery as in TRrec, for every call form of the Transport (Call, Ping,
+// CallWithContext, NewStream, Go): the form that hits the dead pooled connection must mark it, so
+// that the next attempt gets a fresh connection.
+func zzH_TRvia() {
+	z := &zzWorld{up: map[string]bool{"a": true, "b": true}, dials: map[string]int{}}
+	t := zzNewTransport(z, 1, 1)
+	vSetTimerBudget(vParam("tr.ticks", 1))
+	arg := []byte{0x31}
+	var reply []byte
+	vAssert(t.Call("a", "S.Echo", &arg, &reply) == nil, "first-call-ok")
+	vQuiesce()
+	z.kill("a")
+	vQuiesce()
+	z.up["a"] = true
+	via := vChoose("via", 5)
+	try := func() error {
+		switch via {
+		case 0:
+			return t.Call("a", "S.Echo", &arg, &reply)
+		case 1:
+			return t.Ping("a")
+		case 2:
+			return t.CallWithContext(&zzCtx{done: make(chan struct{})}, "a", "S.Echo", &arg, &reply)
+		case 3:
+			st, err := t.NewStream("a", "S.Watch")
+			if err == nil {
+				st.Close()
+			}
+			return err
+		}
+		done := make(chan *Call, 1)
+		c := t.Go("a", "S.Echo", &arg, &reply, done)
+		<-done
+		return c.Error
+	}
+	fails := 0
+	for i := 0; i < 3; i++ {
+		if err := try(); err != nil {
+			vAssert(err == ErrShutdown, "failure-is-shutdown")
+			fails++
+			vAssert(fails <= 1, "at-most-one-failure-per-pooled-connection")
+		} else {
+			fails = -100
+		}
+		vQuiesce()
+	}
+	t.Close()
+	vReach("end")
+}
+
+// zzH_TRretry: the request of a Transport.Call reaches the server, then the connection dies before
+// the response: the call fails (the library never retries: at most one request is written per call)
+// while the server is still reachable for later calls.
+func zzH_TRretry() {
+	z := &zzWorld{up: map[string]bool{"a": true, "b": true}, dials: map[string]int{}}
+	t := zzNewTransport(z, 1, 1)
+	vSetTimerBudget(0)
+	arg := []byte{0x31}
+	var r0 []byte
+	vAssert(t.Call("a", "S.Echo", &arg, &r0) == nil, "first-call-ok")
+	vQuiesce()
+	m := z.conns[0]
+	m.auto = false
+	m.out = make(chan []byte, 4)
+	var err error
+	var reply []byte
+	returned := false
+	vGo("caller", func() {
+		err = t.Call("a", "S.Echo", &arg, &reply)
+		returned = true
+	})
+	<-m.out // the request has been written (and executed by the server)
+	w := z.writes("a")
+	m.fail(io.EOF) // the connection drops before the response
+	vQuiesce()
+	vAssert(returned && err == ErrShutdown, "call-fails-with-ErrShutdown")
+	vAssert(z.writes("a") == w, "request-not-sent-again")
+	var r2 []byte
+	t.Call("a", "S.Echo", &arg, &r2)
+	t.Close()
+	vReach("end")
+}
+
+// zzH_TRctx: two calls share one pooled connection; one of them is a CallWithContext whose context
+// ends (cancelled or deadline exceeded) while the other, slower call is still in flight: the sibling
+// must still succeed.
+func zzH_TRctx() {
+	z := &zzWorld{up: map[string]bool{"a": true, "b": true}, dials: map[string]int{}}
+	t := zzNewTransport(z, 1, 1)
+	vSetTimerBudget(0)
+	arg := []byte{0x31}
+	var r0 []byte
+	vAssert(t.Call("a", "S.Echo", &arg, &r0) == nil, "first-call-ok")
+	vQuiesce()
+	m := z.conns[0]
+	m.auto = false
+	m.out = make(chan []byte, 4)
+	ctx := &zzCtx{done: make(chan struct{})}
+	var errCtx, errSib error
+	var r1, r2 []byte
+	sibArg := []byte{0x32, 0x32}
+	doneCtx, doneSib := false, false
+	vGo("ctx-caller", func() {
+		errCtx = t.CallWithContext(ctx, "a", "S.Echo", &arg, &r1)
+		doneCtx = true
+	})
+	vGo("sibling", func() {
+		errSib = t.Call("a", "S.Echo", &sibArg, &r2)
+		doneSib = true
+	})
+	var sib pbRequest
+	for i := 0; i < 2; i++ {
+		f := <-m.out
+		var r pbRequest
+		r.Unmarshal(f)
+		if len(r.Args) == 2 {
+			sib = r
+		}
+	}
+	if vChoose("how", 2) == 0 {
+		ctx.err = errZZCanceled
+	} else {
+		ctx.err = context.DeadlineExceeded
+	}
+	close(ctx.done)
+	vQuiesce()
+	vAssert(doneCtx && errCtx == ctx.err, "ctx-error-returned")
+	vAssert(m.nCloses == 0, "connection-with-sibling-in-flight-not-closed")
+	m.deliver(zzResponse(sib.Seq, "", zzReplyFor(sib.Args)))
+	vQuiesce()
+	vAssert(doneSib && errSib == nil && vEqBytes(r2, zzReplyFor(sibArg)), "sibling-gets-own-reply")
+	t.Close()
+	vReach("end")
+}
+
+// zzH_C15s: housekeeping versus a connection whose only activity is an open stream (also after one
+// stream write failed to encode): CloseIdleConnections and ticks must not close it; a message pushed
+// afterwards is still delivered.
+func zzH_C15s() {
+	z := &zzWorld{up: map[string]bool{"a": true, "b": true}, dials: map[string]int{}}
+	t := zzNewTransport(z, 1, 1)
+	vSetTimerBudget(vParam("c15.ticks", 1))
+	st, err := t.NewStream("a", "S.Watch")
+	vAssert(err == nil && st != nil, "stream-opened")
+	if err != nil {
+		return
+	}
+	m := z.conns[0]
+	if vChoose("bad-write", 2) == 1 {
+		st.WriteMessage(42) // cannot be encoded: fails inside WriteRequest, the stream stays open
+		vQuiesce()
+	}
+	switch vChoose("op", 2) {
+	case 0:
+		vQuiesce()
+	case 1:
+		t.CloseIdleConnections()
+	}
+	vQuiesce()
+	vAssert(m.nCloses == 0, "connection-with-open-stream-not-closed-by-housekeeping")
+	t.Close()
+	vReach("end")
 }
